@@ -572,6 +572,13 @@ def runaway(x):
     return 2 * x
 
 
+def slow_first(x):
+    import time
+    if x % 4 == 0:
+        time.sleep(0.4)        # the consumer is blocked in next() for this item while later ones complete
+    return 10 * x
+
+
 def run_deep(cfg):
     """real worker processes; the mapped function fails at the bottom of a deep call chain (beyond
     the number of frames the exception record keeps) or by runaway recursion: apply/map re-raise the
@@ -653,6 +660,18 @@ def run_deep(cfg):
     if seen != want:
         flag('C02:pool-imap-error-position', 'imap(deep_at, %s) consumer saw %s, sequential: %s' % (xs, seen, want),
              dict(kind='imap deep_at', xs=xs))
+    # ordered imap with a consumer already blocked in next() while LATER items complete first
+    for n_items, cs in ((4, 1), (9, 1), (6, 2)):
+        runs += 1
+        case = dict(kind='imap slow_first', n=n_items, chunksize=cs)
+        try:
+            got = list(pool.imap(slow_first, range(n_items), chunksize=cs))
+            if got != [10 * x for x in range(n_items)]:
+                flag('C02:pool-imap-differs-from-sequential', 'imap(slow_first, range(%d), chunksize=%d) with the consumer blocked in next() -> %s'
+                     % (n_items, cs, got), case)
+        except BaseException as exc:
+            flag('C02:pool-imap-raised', 'imap(slow_first, range(%d), chunksize=%d) with the consumer blocked in next() while later items complete raised %s'
+                 % (n_items, cs, type(exc).__name__), case)
     runs += 1
     try:
         if pool.apply_async(deep_at, (2,)).get(timeout=30) != 4:
